@@ -117,6 +117,13 @@ def run_case(case):
                     g_.is_finite()
                     g_.get_generating_symbols()
         run_battery(check, phase, g1, g2, R1, R2, L1, L2, case)
+    # the same operations on operands that are themselves results of language-preserving transformations (their
+    # production objects and bodies may be shared inside the grammar)
+    d1 = d2 = None
+    with guard(failures, "derive_operands"):
+        d1, d2 = g1.eliminate_unit_productions(), g2.remove_useless_symbols()
+    if d1 is not None and d2 is not None:
+        run_battery(check, "derived", d1, d2, R1, R2, L1, L2, case)
     with guard(failures, "operand_unchanged"):
         if ref_cfg.lib_to_ref(g1).prod_set() != snap1 or ref_cfg.lib_to_ref(g2).prod_set() != snap2:
             failures.append(fail("operand_unchanged", "changed"))
@@ -136,7 +143,7 @@ def run_battery(check0, phase, g1, g2, R1, R2, L1, L2, case):
     from pyformlang.cfg import Terminal
 
     def check(name, f, expected):
-        check0(name if phase == "fresh" else name + "@warmed", f, expected)
+        check0(name if phase == "fresh" else name + "@" + phase, f, expected)
     check("union", lambda: g1.union(g2), L1 | L2)
     check("or_operator", lambda: g1 | g2, L1 | L2)
     check("union_swapped", lambda: g2.union(g1), L1 | L2)
